@@ -59,7 +59,7 @@ REGEN = ["Unicode", "Encoding"]
 
 CODECS = ["ascii", "utf-8", "latin-1", "cp1251", "cp1252", "koi8-r", "shift_jis", "euc-jp", "gb2312", "iso-8859-15"]
 BOM = codecs.BOM_UTF8
-UTF8_ALIASES = ["UTF-8", "utf8", "utf_8"]
+UTF8_ALIASES = ["UTF-8", "utf8", "utf_8", "U8", "Utf8", "cp65001", "uTf-8"]
 COMMENT_FORMS = ["## -*- coding: %s -*-\n", "# -*- coding: %s -*-\n", "## coding=%s\n", "## vim: set fileencoding=%s :\n",
                  "## -*- coding: %s -*-\r\n"]
 ERRORS = ["strict", "replace", "ignore", "xmlcharrefreplace", "backslashreplace", "htmlentityreplace"]
@@ -72,6 +72,14 @@ def encb(b) -> str:
 
 def optname(x):
     return "none" if x is None else enc(x)
+
+
+def is_utf8_name(name):
+    """the abstract `Env.isUtf8` of the model, instantiated by the running interpreter's registry"""
+    try:
+        return codecs.lookup(name).name == "utf-8"
+    except LookupError:
+        return False
 
 
 def same_codec(a, b):
@@ -242,6 +250,8 @@ def make_case(rng, codec, style, nparts, idx):
     real = "utf-8" if style.startswith("bom") else codec
     rep = codec_table(real)[0]
     parts = gen_parts(rng, rep, nparts)
+    if rep and style in ("conflict-comment-right", "conflict-comment-wrong", "both", "comment", "input_encoding"):
+        parts.insert(rng.randint(0, len(parts)), rng.choice(rep) + rng.choice(rep))     # never a pure-ASCII body
     if style == "hash-after-nonascii" and not rep:
         style = "comment"
     form = rng.choice(COMMENT_FORMS)
@@ -358,7 +368,9 @@ class Impl:
 
 def model_lex_bytes(drv, items):
     """items: [(data: bytes, ie)] -> model prediction per item, the codec being CPython's"""
-    outs = drv.ask_many(["encd choose %s %s" % (encb(d), optname(ie)) for d, ie in items])
+    sn = drv.ask_many(["encd bomsniff " + encb(d) for d, ie in items])
+    u8 = [0 if o == "none" else int(is_utf8_name(dec(o))) for o in sn]     # the registry's answer, as Lexer._is_utf8 defines it
+    outs = drv.ask_many(["encd choose %s %s %d" % (encb(d), optname(ie), u) for (d, ie), u in zip(items, u8)])
     res = [None] * len(items)
     todo = []
     for i, ((d, ie), o) in enumerate(zip(items, outs)):
@@ -504,7 +516,8 @@ NAMES_BAD = ["nonsense", "utf-9", "latin-999", "x-unknown"]
 def adversarial_sources(ctx, n):
     """byte strings around the declaration logic (not templates that need to compile)"""
     rng = ctx.rng
-    names = CODECS + UTF8_ALIASES + NAMES_BAD + ["latin1", "LATIN-1", "Shift_JIS", "cp1251.x", "utf-8-sig"]
+    names = CODECS + UTF8_ALIASES + NAMES_BAD + ["latin1", "LATIN-1", "Shift_JIS", "cp1251.x", "utf-8-sig", "U8", "Utf-8", "cp65001",
+                                                  "uTf-8", "utf--8", "utf8-", "UTF", "utf.8", "utf-16"]
     out = []
     for _ in range(n):
         r = rng.random()
@@ -561,10 +574,17 @@ def corr_decode(ctx, drv, impl, cases, big):
     # the codecs Lean has itself: the whole function in Lean
     lean_items = [(d, ie) for d, ie in items if ie in (None, "", "latin-1", "utf-8", "ascii")][: (40000 if big else 5000)]
     outs = drv.ask_many(["encd lex %s %s" % (encb(d), optname(ie)) for d, ie in lean_items])
+    sn = drv.ask_many(["encd bomsniff " + encb(d) for d, ie in lean_items])
     st = ctx.stream("corr.decode_raw_stream_lean_codecs")
-    lean_names = {"utf-8", "utf8", "UTF-8", "utf_8", "Utf-8", "latin-1", "latin1", "iso-8859-1", "LATIN-1", "ascii", "us-ascii", "ASCII"}
-    for (d, ie), o in zip(lean_items, outs):
+    sys.path.insert(0, os.path.join(os.path.dirname(os.path.dirname(os.path.dirname(os.path.abspath(__file__)))), "tools"))
+    import regen_encoding
+    table = set(regen_encoding.utf8_alias_probe("utf-8")[0])           # = Generated.Encoding.utf8Aliases
+    lean_names = table | {"latin-1", "latin1", "iso-8859-1", "LATIN-1", "ascii", "us-ascii", "ASCII"}
+    for (d, ie), o, sname in zip(lean_items, outs, sn):
         f = o.split(" ")
+        if sname != "none" and is_utf8_name(dec(sname)) != (dec(sname) in table):
+            ctx.branch("drs-lean:alias-outside-the-regenerated-table")
+            continue                            # the registry calls it utf-8 by normalisation; the table instance does not list it
         if f[0] == "err" and f[1] == "unknownCodec":
             if dec(f[2]) not in lean_names:
                 continue                        # a codec only CPython has: covered by the stream above
@@ -801,6 +821,12 @@ class Oracle:
             return ("no-CompileException:" + exp[1], "compiled; text=%r" % t.source[:60])
         if ref_exc is not None:
             return ("error-only-for-text:" + ref_exc.__name__, "")
+        try:
+            return self.compare(t, c, path, exp)
+        except Exception as e:              # e.g. UnicodeDecodeError from Template.source / the module file
+            return ("unexpected-exception-after-compile:" + type(e).__name__, str(e)[:200])
+
+    def compare(self, t, c, path, exp):
         ref, want = self.reference(exp[1], c)
         got = t.render_unicode(x=c["x"], y=c["y"])
         if got != want:
@@ -873,6 +899,7 @@ class Oracle:
                 continue
             if "exc" in r:
                 bad.append((c, ("fresh-process-raises:" + r["exc"], r["msg"])))
+                continue
             elif "".join(map(chr, r["ok"])) != want:
                 site = "comment-sniffed-through-dropped-bytes" if self.sniff_defect(c, exp[1]) else "fresh-process-output-differs"
                 bad.append((c, (site, "%r vs %r" % ("".join(map(chr, r["ok"]))[:60], want[:60]))))
@@ -970,7 +997,10 @@ def oracle_grid(ctx, impl, cases):
                 paths = ["bytes", "file", "moddir", "lookup"]
             else:
                 paths = paths_all
-            if ctx.quick:
+            if ctx.quick and c["style"] in ("conflict-comment-right", "conflict-comment-wrong") and exp[0] == "ok":
+                # {comment vs input_encoding conflicting} x {module directory, fresh Template, fresh process}: always all
+                paths = ["bytes", "moddir", "reload", "fresh", "lookup"]
+            elif ctx.quick:
                 # every case runs 'bytes' and two more paths (rotating), so that every cell of the grid is reached
                 k = c["id"]
                 rest = [p for p in paths if p != "bytes"]
@@ -1087,7 +1117,7 @@ def corr_module(ctx, drv, impl, cases, big):
         for c in sel:
             n += 1
             data = bytes.fromhex(c["data"])
-            fn = os.path.join(base, "t%d.html" % n)
+            fn = os.path.join(base, "t%d%s.html" % (n, ["", "\u00e9", "\u0436\u65e5'", "\u2028\U0001f600"][n % 4]))
             open(fn, "wb").write(data)
             try:
                 t = impl.T.Template(filename=fn, module_directory=os.path.join(base, "m"), input_encoding=c["input_encoding"])
@@ -1133,12 +1163,17 @@ def corr_module(ctx, drv, impl, cases, big):
                 ok = 0
             reqs.append("encd penc %d %s" % (ok, encb(raw[:400])))
             reqs.append("encd modenc " + optname(eff))
+            reqs.append("encd ascii " + enc(fn))
         outs = drv.ask_many(reqs)
         rep_reqs, rep_rows = [], []
         for i, (c, t, raw, data, fn) in enumerate(rows):
             st["cases"] += 1
             eff = t.module._source_encoding
-            magic, penc, modenc = outs[3 * i], outs[3 * i + 1], outs[3 * i + 2]
+            magic, penc, modenc, afn = outs[4 * i], outs[4 * i + 1], outs[4 * i + 2], outs[4 * i + 3]
+            mfn = re.search(rb"^_template_filename = (.*)$", raw, re.M)
+            if not mfn or mfn.group(1) != dec(afn).encode("ascii"):
+                ctx.disagree("corr.module_file", {"what": "_template_filename line", "filename": fn}, dec(afn),
+                             mfn and mfn.group(1).decode("latin-1"))
             line1 = raw.split(b"\n", 1)[0]
             if line1 != dec(magic).encode("ascii"):
                 ctx.disagree("corr.module_file", {"what": "magic comment", "encoding": eff}, dec(magic), line1.decode("latin-1"))
@@ -1152,7 +1187,11 @@ def corr_module(ctx, drv, impl, cases, big):
             except UnicodeDecodeError:
                 ctx.disagree("corr.module_file", {"what": "module bytes are not in the declared encoding", "encoding": eff}, "decodable", "not")
                 continue
-            src = t.source
+            try:
+                src = t.source
+            except Exception as e:
+                ctx.disagree("corr.module_file", {"what": "Template.source raises", "encoding": eff}, "a str", "%s: %s" % (type(e).__name__, str(e)[:100]))
+                continue
             allowed = set(src) | set(fn) | set(t.uri)
             stray = sorted(ch for ch in set(mtext) if ord(ch) > 127 and ch not in allowed)
             if stray:
@@ -1174,17 +1213,26 @@ def corr_module(ctx, drv, impl, cases, big):
             st["cases"] += 1
             eff = t.module._source_encoding
             try:
-                want = data.decode(eff)
+                want = (data[len(BOM):] if data.startswith(BOM) else data).decode(eff)
             except UnicodeDecodeError:
                 want = None
-            if t.source != want:
-                ctx.disagree("corr.template_source", {"bytes": data.hex(), "encoding": eff}, want, t.source)
-        lean = [(c, t, data) for c, t, raw, data, fn in rows if codecs.lookup(t.module._source_encoding).name in ("utf-8", "iso8859-1", "ascii")
-                and t.module._source_encoding in ("utf-8", "latin-1", "ascii", "UTF-8")]
-        outs = drv.ask_many(["encd source %s %s" % (encb(d), enc(t.module._source_encoding)) for c, t, d in lean])
-        for (c, t, d), o in zip(lean, outs):
+            try:
+                got_src = t.source
+            except Exception as e:
+                got_src = "%s raised" % type(e).__name__
+            if got_src != want:
+                ctx.disagree("corr.template_source", {"bytes": data.hex(), "encoding": eff}, want, got_src)
+        lean = []
+        for c, t, raw, data, fn in rows:
+            if t.module._source_encoding in ("utf-8", "latin-1", "ascii", "UTF-8"):
+                try:
+                    lean.append((c, t, data, t.source))
+                except Exception:
+                    pass
+        outs = drv.ask_many(["encd source %s %s" % (encb(d), enc(t.module._source_encoding)) for c, t, d, _ in lean])
+        for (c, t, d, src), o in zip(lean, outs):
             st["cases"] += 1
-            want = "ok str " + enc(t.source)
+            want = "ok str " + enc(src)
             if o != want:
                 ctx.disagree("corr.template_source", {"bytes": d.hex(), "lean": True}, o, want)
     finally:
